@@ -3,7 +3,17 @@ scan denotation, clone isolation, well-formedness of a node dump) and BTreeMech.
 algorithm transcribed: split / steal / merge / iterate, proved against BTree within small
 constants) are model-checked; plans from BTree_Gen and seeded histories are executed on
 ds/tree.BTree and ds/tree/btree.BTree; every recorded reply, the contents of every live handle
-after every write and the node dumps are validated by BTree_Trace."""
+after every write and the node dumps are validated by BTree_Trace.
+
+Hardening (generic, see tools/prompts/audit.txt): wrapper scan results are kept as returned and
+rendered when the history / round is over in half of the histories and in every concurrent round;
+free-list size (default / 0 / 1 / 2 / one list shared by many trees), degrees up to 64 and keys /
+pivots at +-2^30 are plan dimensions; cold prologues (every call on a tree without a root, Clone
+and Clear of the empty tree, Clear twice) and cold race rounds; re-entrant use from inside a scan
+callback (reads of the same tree, writes to a clone sharing nodes); callbacks that panic (pscan);
+readers of one frozen clone in parallel with writers of its siblings; a call that panics, never
+returns (watchdog -> `stuck`) or kills the process (self-supervision -> `crash`) is an event the
+spec rejects, never exit 2."""
 import hashlib
 import json
 import os
@@ -46,9 +56,9 @@ def run(ctx):
     # 3. execute against the real code
     binary = ctx.go_build("c03")
     ctx.harness(binary, ["-plans", pdir, "-out", ctx.path("seq.ndjson"), "-conc", ctx.path("conc.ndjson"),
-                         "-seed", ctx.seed, "-hist", ctx.q(50, 250), "-maxops", ctx.q(160, 400),
+                         "-seed", ctx.seed, "-hist", ctx.q(50, 200), "-maxops", ctx.q(160, 400),
                          "-npar", ctx.q(12, 150), "-nconc", ctx.q(60, 1200), "-nstress", ctx.q(6, 100),
-                         "-nrace", ctx.q(30000, 300000), "-nracekeep", ctx.q(1500, 12000), "-racesecs", ctx.q(25, 120),
+                         "-nrace", ctx.q(30000, 300000), "-nracekeep", ctx.q(1500, 9000), "-racesecs", ctx.q(25, 120),
                          "-sweep", ctx.q(4, 10), "-stats", ctx.path("stats.json")],
                 timeout=1800, traces=[ctx.path("seq.ndjson"), ctx.path("conc.ndjson")])
     # 4. validate what the real code did
@@ -74,6 +84,12 @@ def run(ctx):
         "only rounds whose calls really overlapped are kept",
         "the generator picks 'present' keys from its own bookkeeping of the calls it issued, never from the tree",
         "limits n >= 0 only (a negative limit makes iterWalk panic in make(); outside the statement)",
+        "re-entrant use is exercised only where the unchanged code guarantees it: reads of the same tree from a "
+        "scan callback in ONE goroutine (recursive RLock without a waiting writer), writes only to another handle",
+        "a panicking scan callback must leave the tree unchanged and usable (the wrapper unlocks in a defer); "
+        "panics inside Less during a write are not exercised",
+        "watchdog: a library call that makes no progress for 20-30 s is logged as `stuck`; a runtime fatal error of "
+        "the child process inside neptune is logged as `crash` by the supervising parent",
     ]
     return ctx.finish(
         rule="plans = TLC simulation of BTree.tla (12 keys, 3 handles, degree 2/3, wrapper and inner api; distinct "
